@@ -324,8 +324,9 @@ def write_evidence(pid, tier, seed, results, wall, level_text, assumptions, boun
         'assumptions': assumptions,
         'wall_s': round(wall, 2), 'violations': len(new_v),
     }
-    os.makedirs(os.path.join(VERIF, 'evidence'), exist_ok=True)
-    open(os.path.join(VERIF, 'evidence', pid + '.json'), 'w').write(json.dumps(ev, indent=1, default=str))
+    evdir = os.environ.get('VERIF_EVIDENCE_DIR') or os.path.join(VERIF, 'evidence')      # seeded-change runs (tools/seed_matrix.py) write elsewhere
+    os.makedirs(evdir, exist_ok=True)
+    open(os.path.join(evdir, pid + '.json'), 'w').write(json.dumps(ev, indent=1, default=str))
 
 # ---------------------------------------------------------------- confirm-by-replay
 def confirm(res, pid, harness, fn, spec, ret, oracle, oracles, key, what, timeout=20, san=False, suspect_is_inconclusive=True, extra=None):
